@@ -270,7 +270,8 @@ def worker_main(argv):
             agg['harness_errors'].append({'run': i, 'error': res['harness_error'], 'scenario': scenario})
             continue
         agg['ops'] += res['ops']
-        agg['digests'][i] = res['digest']
+        if res.get('note') != 'timing-dependent':
+            agg['digests'][i] = res['digest']
         for k, v in res['probes'].items():
             agg['probes'][k] = agg['probes'].get(k, 0) + v
         for k, v in res['faults'].items():
